@@ -875,3 +875,32 @@ pre_attrs! { fn c01_pre_break_end() {
         }
     }
 }}
+
+// ------------------------------------------------------------------ unescape() alone (the .stringz text -> characters step)
+// (.stringz through preprocess() did not finish in 90 min even on a concrete 6-byte literal; the escape
+// processing itself is decided here on concrete literals -- the loop that turns the characters into words is read)
+macro_rules! unescape_case {
+    ($name:ident, $text:expr, $want:expr) => {
+        #[kani::proof]
+        #[kani::unwind(12)]
+        #[kani::stub(core::slice::memchr::memchr, stubs::memchr_simple)]
+        fn $name() {
+            let out = unescape($text);
+            let want: &[char] = $want;
+            let mut it = out.chars();
+            let mut i = 0;
+            while i < want.len() {
+                assert!(it.next() == Some(want[i]), "unescaped text differs from the documented escapes");
+                i += 1;
+            }
+            assert!(it.next().is_none(), "unescaped text has extra characters");
+            kani::cover!(true);
+            core::mem::forget(out);
+        }
+    };
+}
+unescape_case!(c01_unescape_plain, "ab", &['a', 'b']);
+unescape_case!(c01_unescape_newline, "a\\n", &['a', '\n']);
+unescape_case!(c01_unescape_backslash_n, "\\\\n", &['\\', 'n']);
+unescape_case!(c01_unescape_nonascii_escape, "\u{e9}\\n", &['\u{e9}', '\n']);
+unescape_case!(c01_unescape_quote_tab, "\\\"\\t", &['"', '\t']);
